@@ -400,6 +400,94 @@ def coq_cases(cases):
     return '\n'.join(lines) + '\n'
 
 
+
+# ------------------------------------------------------------------------------------------
+# L3 only: askers that are not connected yet (the reply needs a new peer connection, which can fail)
+# ------------------------------------------------------------------------------------------
+
+LATE_VARIANTS = [
+    {'outcomes': ['fail', 'ok'], 'carriers': ['SS', 'SS']},
+    {'outcomes': ['ok', 'fail'], 'carriers': ['SS', 'DS']},
+    {'outcomes': ['ok', 'ok'], 'carriers': ['DS', 'SS']},
+    {'outcomes': ['fail', 'ok', 'ok'], 'carriers': ['DS', 'DS', 'SS']},
+    {'outcomes': ['fail', 'fail', 'ok'], 'carriers': ['SS', 'LS', 'DS']},
+]
+
+
+def run_late_asker(variant):
+    """Several matching requests of the SAME user arrive while no peer connection to that user exists; every reply task
+    asks the server for the address and opens its own connection; `outcomes[i]` says whether the i-th connection attempt
+    (direct, then indirect) fails or succeeds.  Property: every request whose delivery is possible gets exactly one reply
+    with its ticket, the own name and the oracle lists - whatever happened to the deliveries of the other requests.
+    Returns list of (key, what, detail)."""
+    from vlib import fakes
+    from aioslsk.protocol import messages as M
+    from aioslsk.protocol.messages import ServerMessage, PeerMessage, PeerInitializationMessage
+    user, query = 'carol', 'song'
+    rig = new_rig()
+    out = []
+    try:
+        rig.session_init()
+        rig.peer_init(1, 'alice', True)
+        rig.peer_msg(1, M.DistributedBranchLevel.Request(0))          # a parent, for the distributed carriers
+        tickets = []
+        for i, car in enumerate(variant['carriers']):
+            t = 100 + i
+            tickets.append(t)
+            if car == 'SS':
+                rig.server_msg(M.ServerSearchRequest.Response(distributed_code=3, unknown=0, username=user, ticket=t, query=query))
+            elif car == 'DS':
+                rig.peer_msg(1, M.DistributedSearchRequest.Request(unknown=49, username=user, ticket=t, query=query))
+            else:
+                rig.peer_msg(1, M.DistributedServerSearchRequest.Request(distributed_code=3, unknown=0, username=user, ticket=t, query=query))
+        vis, locked = oracle(rig, user, query)
+        eps = []
+        for oc in variant['outcomes']:
+            if oc == 'ok':
+                ep = fakes.Endpoint(rig.net, peername=('10.4.0.1', 2234), label='late-asker')
+                eps.append(ep)
+                rig._want.append(ep)
+            else:
+                eps.append(None)
+                rig._want.append(ConnectionRefusedError('refused'))
+        mark = len(rig.server.frames())
+        rig.server_msg(M.GetPeerAddress.Response(username=user, ip='10.4.0.1', port=2234, obfuscated_port_amount=0, obfuscated_port=0))
+        for _ in range(len(variant['outcomes'])):
+            frames = rig.server.frames()
+            for fr in frames[mark:]:
+                m = ServerMessage.deserialize_request(fr)
+                if isinstance(m, M.ConnectToPeer.Request):
+                    rig.loop.create_task(rig.network.on_message_received(M.CannotConnect.Response(ticket=m.ticket), rig.network.server_connection))
+            mark = len(frames)
+            rig.settle()
+        got = []
+        for ep in eps:
+            if ep is None:
+                continue
+            for fr in ep.frames()[1:]:          # the first frame is PeerInit
+                m = PeerMessage.deserialize_request(fr)
+                if isinstance(m, M.PeerSearchReply.Request):
+                    got.append({'user': m.username, 'ticket': m.ticket, 'visible': sorted(canon(f.filename) for f in m.results),
+                                'locked': sorted(canon(f.filename) for f in (m.locked_results or []))})
+        n_ok = sum(1 for oc in variant['outcomes'] if oc == 'ok')
+        det = {'late_asker': variant, 'tickets': tickets, 'replies': got, 'connections_that_succeeded': n_ok,
+               'connect_attempts_left_unused': len(rig._want)}
+        # which request uses which attempt is the implementation's business: n_ok of the requests must be answered, each at most once
+        good = [g for g in got if g['user'] == 'me' and g['ticket'] in tickets and g['visible'] == vis and g['locked'] == locked]
+        if len(good) != len(got):
+            out.append(('reply-content', 'a reply to a late asker has wrong ticket / user / lists', det))
+        if len({g['ticket'] for g in good}) != len(good):
+            out.append(('reply-count', 'a request of a late asker was answered twice', det))
+        if len(good) < n_ok:
+            key = ('reply-missing-after-earlier-delivery-to-same-user-failed' if 'fail' in variant['outcomes']
+                   else 'reply-missing-for-late-asker')
+            out.append((key, f'{n_ok} connection attempts to the asker succeeded but only {len(good)} requests were answered: '
+                             'a reply was never attempted because the delivery of another reply to the same user failed', det))
+        return out
+    finally:
+        rig.close()
+
+
 WITNESS = {
     F17_KEY: [['SI'], ['PI', 1, 'alice', True], ['BL', 1, 3], ['BR', 1, 'root1'], ['PI', 2, 'bob', False], ['DS', 1, 49, 'me', 7, 'song']],
     F10E_KEY: [['SI'], ['PI', 1, 'alice', False], ['BL', 1, 2], ['BR', 1, 'root1'], ['DS', 1, 49, 'bob', 7, 'flac']],
@@ -478,6 +566,15 @@ def run(run: Run):
             small = shrink_events(events, k)
             run.add_finding(Finding(k, what, {'events': small, 'detail': detail}))
 
+    for variant in LATE_VARIANTS:
+        run.case({'late_asker': variant}, kind='l3-late-asker')
+        try:
+            vs = run_late_asker(variant)
+        except Exception as e:   # noqa
+            vs = [('impl-exception', f'late asker scenario: {type(e).__name__}: {e}', {'late_asker': variant})]
+        for k, what, detail in vs:
+            run.add_finding(Finding(k, what, detail))
+
     shard = 50
     try:
         texts = [coq_cases(cases[i:i + shard]) for i in range(0, len(cases), shard)]
@@ -509,6 +606,11 @@ def run(run: Run):
 
 def replay(rep) -> int:
     w = rep['witness']
+    if isinstance(w, dict) and 'late_asker' in w:
+        v = run_late_asker(w['late_asker'])
+        for k, what, detail in v:
+            print('VIOLATED:', k, what, detail)
+        return 1 if v else 0
     events = w['events'] if isinstance(w, dict) else w
     obs = run_impl(events)
     for e, o in zip(events, obs):
